@@ -1,5 +1,7 @@
 import GridVerif.Props.C08
 import GridVerif.Props.C08.Gen
+import GridVerif.Props.C08.Scipy
+import GridVerif.Props.C08.Windows
 
 #print axioms GridVerif.C08.row_index_bij
 #print axioms GridVerif.C08.ylm_rows_spec
@@ -27,3 +29,8 @@ import GridVerif.Props.C08.Gen
 #print axioms GridVerif.C08.gen_cart_to_sph_eq_model
 #print axioms GridVerif.C08.gen_jacobian_eq_model
 #print axioms GridVerif.C08.accumulator_is_extended_precision
+#print axioms GridVerif.C08.gen_scipy_eq_model
+#print axioms GridVerif.C08.gen_scipy_guards_and_shapes
+#print axioms GridVerif.C08.scipy_agrees_with_recursion
+#print axioms GridVerif.C08.scipy_angle_window
+#print axioms GridVerif.C08.gen_threshold_windows
